@@ -76,7 +76,7 @@ def execute(case):
     if case['tr'] == 'run':
         return execute_run(case)
     w = None
-    signal.alarm(60)
+    signal.alarm(20)
     try:
         w = make(case)
         for it in case['items']:
@@ -113,7 +113,7 @@ def execute_run(case):
     runmod = sys.modules['pexpect.run']
     fate = tuple(case['fate'])
     holder = {}
-    signal.alarm(60)
+    signal.alarm(20)
 
     class RunCase(L.ChildCase):
         transport = 'pty'
